@@ -24,7 +24,7 @@ func init() {
 	}
 	Register(&Spec{
 		ID:          "C04",
-		Explanation: "Decides three necessary conditions of write/read-back agreement: (R1) for every width the struct getter and setter and every typed list At/Set pair use the same guard with the same size and the segment accessor of that same width (table of 4+1 struct pairs and 11 list pairs, compared with the schema width table), and the setters have their confirmed normal forms; (R2) alloc is the only function that lengthens a segment, hands out the old length as the address of the new object, extends by the padded size under a checked address computation and zero-fills the new region; (R3) the four framers agree on the header: size from streamHeaderSize, segment count minus one in word 0, each segment's length in words at 4+4i, and readers take exactly those fields. The zero fill of alloc must lie on every path to a success return. (R2s) a window obtained from Segment.slice is not used after a call that can allocate (the arena may have replaced the backing array). (R5, R5c, R5p, R5s) the landing-pad lemmas of writePtr, the composite tag address, the pairing of an allocated address with its segment and the capacity cap of decoded segments (shared with C05-R3/R3c/R4 and C14-R4: a value can only be read back through a well-formed pointer and from storage no other object overlaps). (R6z) copyStruct clears the part of the destination's data section that the source does not cover (shared with C16-R3z: a struct written over a used one reads back as written). Does NOT decide round-trip equality, non-interference between fields or independence of chunking.",
+		Explanation: "Decides three necessary conditions of write/read-back agreement: (R1) for every width the struct getter and setter and every typed list At/Set pair use the same guard with the same size and the segment accessor of that same width (table of 4+1 struct pairs and 11 list pairs, compared with the schema width table), and the setters have their confirmed normal forms; (R2) alloc is the only function that lengthens a segment, hands out the old length as the address of the new object, extends by the padded size under a checked address computation and zero-fills the new region; (R3) the four framers agree on the header: size from streamHeaderSize, segment count minus one in word 0, each segment's length in words at 4+4i, and readers take exactly those fields. The zero fill of alloc must lie on every path to a success return. (R2s) a window obtained from Segment.slice is not used after a call that can allocate (the arena may have replaced the backing array). (R5, R5c, R5p, R5s) the landing-pad lemmas of writePtr, the composite tag address, the pairing of an allocated address with its segment and the capacity cap of decoded segments (shared with C05-R3/R3c/R4 and C14-R4: a value can only be read back through a well-formed pointer and from storage no other object overlaps). (R6z) copyStruct clears the part of the destination's data section that the source does not cover (shared with C16-R3z: a struct written over a used one reads back as written). (R7) in the methods of Encoder a scratch slice (bufs, hdrbuf, packbuf) is extended from its current contents only where an append onto field[:0] dominates; (R8) the results of Arena.Allocate are used only where its error was tested. Does NOT decide round-trip equality, non-interference between fields or independence of chunking.",
 		Run:         runC04,
 	})
 }
@@ -66,6 +66,13 @@ func runC04(ctx *Ctx) {
 	// part of the destination the source does not cover is cleared (shared with
 	// C16-R3z)
 	ruleCopyZeroFill(ctx, "C04-R6z")
+	ruleEncoderScratchStartsEmpty(ctx, "C04-R7")
+	// an allocation the arena refused must leave the message as it was: the
+	// results of Arena.Allocate are installed only where its error was tested
+	// (shared with C01-R3)
+	ruleCheckedResultsIn(ctx, "C04-R8", func(n string) bool {
+		return n == "capnp.(*Message).allocSegment" || n == "capnp.alloc" || n == "capnp.(*Message).setSegment" || n == "capnp.(*Message).segment"
+	})
 	r := ctx.Rep
 	r.Floor("C04-R1", 25)
 	r.Floor("C04-R2", 5)
